@@ -9,6 +9,16 @@ pub use crate::dictionary::connector::matrix_connector::MatrixConnector;
 pub use crate::dictionary::connector::raw_connector::RawConnector;
 use crate::dictionary::mapper::ConnIdMapper;
 
+/// Verification hook: re-exports of the raw connector's scorer for `crate::verif`.
+#[cfg(vibrato_verif)]
+pub mod verif_scorer {
+    pub use super::raw_connector::scorer::{ScorerBuilder, U31x8};
+
+    pub fn invalid_id() -> crate::num::U31 {
+        super::raw_connector::INVALID_FEATURE_ID
+    }
+}
+
 pub trait Connector {
     /// Returns maximum number of left connection ID
     fn num_left(&self) -> usize;
